@@ -92,6 +92,19 @@ def lean_sources():
     return sorted(res)
 
 
+def abbreviate(obj, maxlist=24, maxstr=400):
+    """evidence samples: long lists / strings are cut (with a note of how much was left out) so that the evidence file stays small"""
+    if isinstance(obj, dict):
+        return {k: abbreviate(v, maxlist, maxstr) for k, v in obj.items()}
+    if isinstance(obj, (list, tuple)):
+        if len(obj) > maxlist:
+            return [abbreviate(v, maxlist, maxstr) for v in obj[:maxlist]] + ['... %d more entries' % (len(obj) - maxlist)]
+        return [abbreviate(v, maxlist, maxstr) for v in obj]
+    if isinstance(obj, str) and len(obj) > maxstr:
+        return obj[:maxstr] + '... (%d characters)' % len(obj)
+    return obj
+
+
 class LeanStage:
     """Regenerate facts, build, grep, audit.  Result is cached by a hash of all
     Lean sources so that repeated checks on an unchanged tree cost ~1 s."""
@@ -595,7 +608,7 @@ class PropertyCheck:
             'evaluations': self.evaluations,
             'distinct_nontrivial': len(self.nontrivial),
             'rule': self.rule,
-            'samples': self.samples[:6],
+            'samples': abbreviate(self.samples[:6]),
             'distribution': self.hist,
             'excluded_ambiguous': self.excluded,
             'model_driver_calls': self.driver.calls,
